@@ -93,6 +93,8 @@ Definition cls_C08 (i : term) : list Z :=
     (if in_F8 ns then [8] else [])
     ++ (if existsb (String.eqb (gs (gn i 1))) edge_formats && in_F9_nodes ns then [9] else [])
     ++ (if in_F19 ns then [19] else [])
+    (* F35 / F36 (weblist: first function name per line in map order; equal-flat files) are repaired in
+       /repo (5f2b7e6, 7401752): no class; their witnesses stay as det-src regression cases *)
     (* F25 at the level of bytes: -dot (EntropyOrder) with weights large enough for float64 rounding
        of score*cum to reach the integer part *)
     (* F28 (float accumulation order in edgeEntropyScore) is repaired in /repo (a9c740c): no class *)
